@@ -357,15 +357,15 @@ def classify_failfs(d, fnvfs_known):
             if not name[0].isupper():
                 c.problems.append("unrecognised helper method FailFS.%s" % name)
                 continue
-            m = re.match(r"fp := FailParam\{(.*)\}\nerr :?= %s\.fail\(avfs\.(Fn\w+), &fp\)\nif err != nil \{\nreturn (?:%s, )?err\n\}\n" % (rv, ZERO), body)
+            m = re.match(r"(?P<fp>\w+) := FailParam\{(.*)\}\n(?P<err>\w+) :?= %s\.fail\(avfs\.(Fn\w+), &(?P=fp)\)\nif (?P=err) != nil \{\nreturn (?:%s, )?(?P=err)\n\}\n" % (rv, ZERO), body)
             if m:
-                flds = fail_params(m.group(1), params, {"user.Name()"})
+                flds = fail_params(m.group(2), params, {"user.Name()"})
                 k = tail_vfs(name, rv, params, body[m.end():])
-                if flds is None or k is None or not fail_ok or m.group(2) not in fnvfs_known:
-                    put(("V", name), "KUnrecognised", "consults %s; %s" % (m.group(2), "tail not recognised" if k is None else "FailParam/fail/Fn id not recognised"))
+                if flds is None or k is None or not fail_ok or m.group(4) not in fnvfs_known:
+                    put(("V", name), "KUnrecognised", "consults %s; %s" % (m.group(4), "tail not recognised" if k is None else "FailParam/fail/Fn id not recognised"))
                 else:
                     fields.append((("V", name), flds))
-                    put(("V", name), "KConsult %s %s %s" % (m.group(2), flagidx(flds), "(%s)" % k if " " in k else k))
+                    put(("V", name), "KConsult %s %s %s" % (m.group(4), flagidx(flds), "(%s)" % k if " " in k else k))
                 continue
             k = tail_vfs(name, rv, params, body)
             put(("V", name), k or "KUnrecognised", "body shape not recognised")
@@ -377,18 +377,18 @@ def classify_failfs(d, fnvfs_known):
                 continue
             b = strip_nil_guard(body, rv)
             helper_ok = name_helper_ok(c.fn("failfs.FailFile", "name"))
-            m = re.match(r"(?:name := %s\.name\(\)\n)?fp := FailParam\{(.*)\}\nvfs := %s\.vfs\nerr :?= vfs\.fail\(avfs\.(Fn\w+), &fp\)\nif err != nil \{\nreturn (?:%s, )?err\n\}\n"
+            m = re.match(r"(?:name := %s\.name\(\)\n)?(?P<fp>\w+) := FailParam\{(.*)\}\n(?P<v>\w+) := %s\.vfs\n(?P<err>\w+) :?= (?P=v)\.fail\(avfs\.(Fn\w+), &(?P=fp)\)\nif (?P=err) != nil \{\nreturn (?:%s, )?(?P=err)\n\}\n"
                          % (rv, rv, ZERO), b)
             if m:
-                flds = fail_params(m.group(1), params, {"name"})
+                flds = fail_params(m.group(2), params, {"name"})
                 m2 = re.fullmatch(r"return %s\.baseFile\.(\w+)\((.*)\)" % rv, b[m.end():])
                 good = (flds is not None and m2 and m2.group(1) == name and args_verbatim(params, m2.group(2)) and fail_ok
-                        and helper_ok and m.group(2) in fnvfs_known)
+                        and helper_ok and m.group(5) in fnvfs_known)
                 if good:
                     fields.append((("F", name), flds))
-                    put(("F", name), "KConsult %s %s KFwd" % (m.group(2), flagidx(flds)))
+                    put(("F", name), "KConsult %s %s KFwd" % (m.group(5), flagidx(flds)))
                 else:
-                    put(("F", name), "KUnrecognised", "consults %s; rest not recognised" % m.group(2))
+                    put(("F", name), "KUnrecognised", "consults %s; rest not recognised" % m.group(5))
                 continue
             m = re.fullmatch(r"return %s\.baseFile\.(\w+)\((.*)\)" % rv, b)
             if m and m.group(1) == name and args_verbatim(params, m.group(2)):
